@@ -83,14 +83,24 @@ class Monitor:
             raise self.fault_exc(f"injected fault at user-callable call #{k} ({kind})")
         return k
 
-    def log_prior(self, samples):
+    def _mapped(self, fn, x, map_fn):
+        """Row-by-row evaluation through the map function aspire handed over (pool runs); positional, like the
+        pattern in docs/multiprocessing.rst."""
+        self.map_fn_calls += 1
+        rows = [np.asarray(r, dtype=np.float64).reshape(1, -1) for r in x]
+        vals = list(map_fn(lambda r: float(fn(r)[0]), rows))
+        return np.asarray(vals, dtype=np.float64)
+
+    map_fn_calls = 0
+
+    def log_prior(self, samples, map_fn=None):
         k = self._tick("prior")
         x = tonp(samples.x)
-        val = self.prior(x)
+        val = self.prior(x) if map_fn is None else self._mapped(self.prior, x, map_fn)
         self.calls.append({"k": k, "kind": "prior", "n": len(x), "x": x.copy() if self.keep_points else None})
         return self._ret(val, samples.x)
 
-    def log_likelihood(self, samples):
+    def log_likelihood(self, samples, map_fn=None):
         k = self._tick("like")
         x = tonp(samples.x)
         rec = {"k": k, "kind": "like", "n": len(x), "x": x.copy() if self.keep_points else None}
@@ -111,4 +121,57 @@ class Monitor:
                 rec["prior_mismatch"] = True
         self.n_like_points += len(x)
         self.calls.append(rec)
-        return self._ret(self.like(x), samples.x)
+        return self._ret(self.like(x) if map_fn is None else self._mapped(self.like, x, map_fn), samples.x)
+
+
+class AdversarialPool:
+    """A pool whose order-preserving calls (map, imap, starmap) preserve the order and whose unordered call returns
+    the results in reverse order of submission (a legal behaviour of an unordered map)."""
+
+    def __init__(self):
+        self.closed = self.joined = self.terminated = 0
+        self.used = []
+
+    def map(self, fn, it, chunksize=None):
+        self.used.append("map")
+        return [fn(v) for v in it]
+
+    def imap(self, fn, it, chunksize=1):
+        self.used.append("imap")
+        return iter([fn(v) for v in it])
+
+    def imap_unordered(self, fn, it, chunksize=1):
+        self.used.append("imap_unordered")
+        return iter([fn(v) for v in it][::-1])
+
+    def starmap(self, fn, it, chunksize=None):
+        self.used.append("starmap")
+        return [fn(*v) for v in it]
+
+    def map_async(self, fn, it, chunksize=None, callback=None, error_callback=None):
+        self.used.append("map_async")
+        res = [fn(v) for v in it]
+
+        class R:
+            def get(self_inner, timeout=None):
+                return res
+
+            def wait(self_inner, timeout=None):
+                return None
+
+            def ready(self_inner):
+                return True
+
+            def successful(self_inner):
+                return True
+
+        return R()
+
+    def close(self):
+        self.closed += 1
+
+    def join(self):
+        self.joined += 1
+
+    def terminate(self):
+        self.terminated += 1
